@@ -34,11 +34,13 @@ ASSUMPTIONS = [
 ]
 CHUNK = 1
 
-TABLE = [(4.0, -6.0), (4.0, 0.0), (4.0, 8.0), (9.0, 20.0), (1.0, 3.0), (0.0, 5.0)]
+TABLE = [(4.0, -6.0), (4.0, 0.0), (4.0, 8.0), (9.0, 20.0), (1.0, 3.0), (0.0, 5.0), (6.0, 20.0)]
 
 
 def _registers(tier):
     regs = {"pair": kit.SHAPES["pair"], "chain3": kit.chain(3), "ring4": kit.ring(4, 7.5), "ladder4": kit.ladder(4), "chain5": kit.chain(5)}
+    # 2 x 4 array at 5 um: deep in the ordered regime, the first step from |g..g> needs several DMRG sweeps
+    regs["grid8"] = [[5.0 * (i % 4), 5.0 * (i // 4)] for i in range(8)]
     if tier == "thorough":
         regs.update({"ring6": kit.ring(6, 7.5), "ladder6": kit.ladder(6), "chain7": kit.chain(7), "chain8": kit.chain(8)})
     return regs
@@ -58,6 +60,11 @@ def bounds(tier, seed):
 def cases(tier, seed):
     for name, coords in _registers(tier).items():
         n = len(coords)
+        if name == "grid8":
+            for idx in (6, 3, 2):
+                for prec in (1e-5, 1e-8):
+                    yield {"reg": name, "drive": ["const", idx], "dt": 10, "precision": prec, "cap": None, "perm": None}
+            continue
         for drive in [("const", i) for i in range(len(TABLE))] + [("sweep", 0)]:
             for dt in (10, 50):
                 for prec in (1e-5, 1e-8):
@@ -80,7 +87,7 @@ def run_case(case):
     if kind == "const":
         om, de = TABLE[idx]
         pulses = [{"amp": ["const", 100, om], "det": ["const", 100, de], "phase": 0.0}]
-        ev = [0.5, 1.0]
+        ev = [0.5, 1.0] if case["reg"] != "grid8" else [0.1, 0.5, 1.0]  # right after the very first step as well
     else:
         om = 5.0
         pulses = [{"amp": ["const", 200, 5.0], "det": ["ramp", 200, -8.0, 12.0], "phase": 0.0}]
